@@ -204,6 +204,13 @@ class Sym(object):
         isd = [And(c >= 48, c <= 57) if not isinstance(c, int) else (48 <= c <= 57) for c in a.c]
         return mkbool(Or(*[And(i + k <= a.n, *isd[i:i + k]) for i in range(a.m - k + 1)]))
 
+    def scratch_dir(self):
+        """a fresh real directory (outside /repo and /verif), removed when the job ends"""
+        import tempfile
+        d = tempfile.mkdtemp(prefix="psx-scratch-")
+        self.job.scratch.append(d)
+        return d
+
     def same(self, a, b):
         return self.I.eq(a, b)
 
